@@ -15,7 +15,7 @@ import txdbus.client
 from txdbus import message, interface, introspection
 
 ACTIONS = {'EpFail': ('why',), 'EpOk': (), 'AuthOk': (), 'AuthRefused': (), 'HelloOk': (), 'HelloErr': (), 'Close': (), 'Quiet': (),
-           'IssueCall': ('k', 't'), 'ReplyCall': ('k',), 'ExpireCall': ('k',), 'CancelCall': ('k',), 'Register': ('x', 'w'), 'DropProxy': ('x',), 'Unregister': ('x',), 'Reregister': ('x',), 'CloseRetry': ('R',)}
+           'IssueCall': ('k', 't'), 'ReplyCall': ('k',), 'ExpireCall': ('k',), 'CancelCall': ('k',), 'Register': ('x', 'w'), 'DropProxy': ('x',), 'Unregister': ('x',), 'Reregister': ('x',), 'CloseRetry': ('R',), 'CloseCancelling': ('x',)}
 OBS = ['tried', 'fired', 'nfired', 'call', 'timers', 'ran', 'late']
 KINDS = ['unix:path=/tmp/verif-sock-%d', 'unix:abstract=verif%d', 'tcp:host=h%d.example,port=%d',
          'nonce-tcp:host=n%d.example,port=%d,noncefile=/x']
@@ -153,6 +153,13 @@ class ConnDriver:
         self._after_close = True
         self.closed = True
 
+    def do_CloseCancelling(self, x):
+        self.selfcancel = x
+        try:
+            self.do_Close()
+        finally:
+            self.selfcancel = None
+
     def do_CloseRetry(self, R):
         # the outstanding call that will fail first reacts by issuing the calls in R (half of them with a deadline)
         first = sorted(k for k in self.calls if hasattr(self, 'serial') and k in self.serial and not self.callres[k])[0]
@@ -217,6 +224,8 @@ class ConnDriver:
             if reason is not getattr(self, 'reason', None):
                 self.ran[x] += 100
             self.ran[x] += 1
+            if getattr(self, 'selfcancel', None) == x:
+                self.proxies[x].cancelNotifyOnDisconnect(self.cbfn[x])
         self.cbfn = getattr(self, 'cbfn', {})
         self.cbfn[x] = cb
         if w == 'conn':
